@@ -284,6 +284,313 @@ def oracle_evt(ctx, L, H, enc_method, proc_method, thetas, nenc=1, V=None):
     return et, block, proc, letters, M, U, Ui
 
 
+# ------------------------------------------------------------------------------ histories (object lifetimes)
+# One object, a sequence of setter / getter calls.  The harness keeps a SHADOW of the object's parameters (updated by
+# its own reading of what each setter means) and every object a getter handed out together with the parameters at that
+# moment.  After EVERY call, every object handed out so far is compared with an independent numpy reference for the
+# parameters IT was obtained with (so a getter that returns a stale / cached / later-mutated object, a setter that does
+# not reach everything it should, or a getter that disturbs earlier results all become concrete failing histories).
+SETTER_NAME = {"theta": "set_theta", "enc": "set_encoding_qubits", "aux": "set_auxiliary_qubits", "anc": "set_auxiliary_qubits",
+               "method": "set_method", "thetas": "set_theta_seq", "H": "replacing the encoded operator",
+               "H_inplace": "changing the encoded operator in place", "block": "replacing the block encoding gate",
+               "proc_theta": "processing.set_theta", "circuit": "as_circuit", "matrix": "as_matrix", None: "construction"}
+
+
+def embed(nw, wires, A):
+    """numpy-only: the operator A on the listed wires (in that order), identity on the others; wire 0 most significant"""
+    wires = list(wires)
+    rest = [w for w in range(nw) if w not in wires]
+    T = np.kron(np.asarray(A, dtype=complex), np.identity(2 ** len(rest)))
+    T = T.reshape(2 * nw * [2])
+    order = wires + rest
+    perm = [order.index(w) for w in range(nw)]
+    return T.transpose(perm + [nw + p for p in perm]).reshape(2 ** nw, 2 ** nw)
+
+
+def cols_with_zero(nw, wire):
+    """basis states whose bit on `wire` is 0 (all of them if wire is None)"""
+    if wire is None:
+        return list(range(2 ** nw))
+    return [c for c in range(2 ** nw) if not (c >> (nw - 1 - wire)) & 1]
+
+
+def circuit_dev(circ, fields, nw, wires, ref, zero_wire):
+    """max deviation of the circuit from `ref on wires (x) identity` on the inputs whose zero_wire is |0>"""
+    M = circ.as_matrix(fields).toarray()
+    if M.shape != (2 ** nw, 2 ** nw):
+        return float("inf")
+    E = embed(nw, wires, ref)
+    cols = cols_with_zero(nw, zero_wire)
+    return float(np.abs(M[:, cols] - E[:, cols]).max())
+
+
+class Held:
+    """an object a getter handed out + the parameters it was obtained with"""
+
+    def __init__(self, what, obj, snap, step):
+        self.what, self.obj, self.snap, self.step = what, obj, snap, step
+
+
+def history_verdict(ctx, prefix, held, k, op, last_setter, dev_of, inp_of):
+    """compare every held object with its reference; report the first deviation; True if one was found"""
+    for h in held:
+        try:
+            dev = dev_of(h)
+        except Exception as e:
+            dev = "%s: %s" % (type(e).__name__, e)
+        if isinstance(dev, str) or not dev < 1e-8:
+            meth = h.snap["method"]
+            if h.step == k:
+                ctx.fail("%s:%s:%s returns an object that does not match the current parameters (last change: %s)"
+                         % (prefix, meth, SETTER_NAME[op[0]], SETTER_NAME[last_setter]), inp_of(k),
+                         "numpy reference for the parameters at the time of the call", "deviation %s" % dev)
+            else:
+                ctx.fail("%s:%s:%s obtained earlier no longer denotes what it denoted, after a later %s"
+                         % (prefix, meth, h.what, SETTER_NAME[op[0]]), dict(inp_of(k), obtained_at_step=h.step),
+                         "unchanged (numpy reference for the parameters it was obtained with)", "deviation %s" % dev)
+            return True
+    return False
+
+
+def oracle_phase_history(ctx, W, init, ops):
+    """ProjectorControlledPhaseShift on a register of W qubits (one field).
+    init = {theta, enc: [wires], aux: wire | None, method}; ops: ["theta", t] | ["enc", [wires]] | ["aux", w] |
+    ["method", m] | ["circuit"] | ["matrix"].  Returns the number of objects checked."""
+    import qib
+    f = qib.field.Field(qib.field.ParticleType.QUBIT, qib.lattice.IntegerLattice((W,), pbc=False))
+    q = [qib.field.Qubit(f, j) for j in range(W)]
+    sh = {"theta": init["theta"], "enc": list(init["enc"]), "aux": init["aux"], "method": init["method"]}
+    n = len(sh["enc"])
+    proc = qib.algorithms.qubitization.ProjectorControlledPhaseShift(
+        sh["theta"], n * [0], [q[w] for w in sh["enc"]], None if sh["aux"] is None else q[sh["aux"]], sh["method"])
+    if sh["method"] != "auxiliary":
+        sh["aux"] = None
+
+    def inp_of(k):
+        return {"kind": "phase-history", "W": W, "init": init, "ops": [list(o) for o in ops[:k + 1]]}
+
+    def dev_of(h):
+        s = h.snap
+        ref = shift_ref(len(s["enc"]), s["theta"])
+        if h.what == "matrix":
+            A = np.asarray(h.obj)
+            return float(np.abs(A - ref).max()) if A.shape == ref.shape else float("inf")
+        return circuit_dev(h.obj, [f], W, s["enc"], ref, s["aux"] if s["method"] == "auxiliary" else None)
+
+    held, last_setter, nchk = [], None, 0
+    for k, op in enumerate(ops):
+        if op[0] == "theta":
+            proc.set_theta(op[1])
+            sh["theta"] = op[1]
+        elif op[0] == "enc":
+            proc.set_encoding_qubits([q[w] for w in op[1]])
+            sh["enc"] = list(op[1])
+        elif op[0] == "aux":
+            proc.set_auxiliary_qubits(q[op[1]])
+            if sh["method"] == "auxiliary":
+                sh["aux"] = op[1]
+        elif op[0] == "method":
+            proc.set_method(op[1])
+            sh["method"] = op[1]
+            if op[1] != "auxiliary":
+                sh["aux"] = None
+        elif op[0] == "circuit":
+            held.append(Held("circuit", proc.as_circuit(), dict(sh, enc=list(sh["enc"])), k))
+        elif op[0] == "matrix":
+            held.append(Held("matrix", proc.as_matrix(), dict(sh, enc=list(sh["enc"])), k))
+        else:
+            raise ValueError(op)
+        nchk += len(held)
+        if history_verdict(ctx, "history:phase-shift", held, k, op, last_setter, dev_of, inp_of):
+            break
+        if op[0] not in ("circuit", "matrix"):
+            last_setter = op[0]
+    return nchk
+
+
+def fresh_encoding(f_sys, H, enc_method):
+    """matrix of a block encoding gate built from scratch for the operator H (no object of the history involved)"""
+    import qib
+    return np.asarray(qib.operator.BlockEncodingGate(DenseOp(f_sys, np.array(H, copy=True)),
+                                                     getattr(qib.operator.BlockEncodingMethod, enc_method)).as_matrix())
+
+
+def oracle_evt_history(ctx, W2, L, init, ops):
+    """EigenvalueTransformation on the fields [f2 (W2 qubits: auxiliary + candidate encoding qubits), f_sys (L qubits)].
+    init = {H, enc_method, proc_method, thetas, enc: wire in f2, anc: wire in f2, bind: "before"|"after"};
+    ops: ["thetas", [..]] | ["enc", w] | ["anc", w] | ["method", m] | ["H", mat] | ["H_inplace", mat] | ["block", enc_method] |
+    ["proc_theta", t] | ["circuit"] | ["matrix"]."""
+    import qib
+    f_sys = qib.field.Field(qib.field.ParticleType.QUBIT, qib.lattice.IntegerLattice((L,), pbc=False))
+    f2 = qib.field.Field(qib.field.ParticleType.QUBIT, qib.lattice.IntegerLattice((W2,), pbc=False))
+    q = [qib.field.Qubit(f2, j) for j in range(W2)]
+    nw = W2 + L
+    sys_wires = list(range(W2, nw))
+    H0 = from_cplx_list(init["H"])
+    sh = {"thetas": list(init["thetas"]), "enc": init["enc"], "anc": init["anc"], "method": init["proc_method"],
+          "H": H0, "enc_method": init["enc_method"]}
+    block = qib.operator.BlockEncodingGate(DenseOp(f_sys, np.array(H0, copy=True)),
+                                           getattr(qib.operator.BlockEncodingMethod, sh["enc_method"]))
+    if init.get("bind", "before") == "before":
+        block.set_auxiliary_qubits(q[sh["enc"]])
+        proc = qib.algorithms.qubitization.ProjectorControlledPhaseShift(0., [0], q[sh["enc"]], q[sh["anc"]], sh["method"])
+        et = qib.algorithms.qubitization.EigenvalueTransformation(block, proc, theta_seq=list(sh["thetas"]))
+    else:
+        # the object is built around a block encoding bound to ANOTHER qubit, then moved with the setters
+        other = [w for w in range(W2) if w not in (sh["enc"], sh["anc"])][0]
+        block.set_auxiliary_qubits(q[other])
+        proc = qib.algorithms.qubitization.ProjectorControlledPhaseShift(0., [0], q[other], q[sh["anc"]], sh["method"])
+        et = qib.algorithms.qubitization.EigenvalueTransformation(block, proc, theta_seq=None)
+        et.set_theta_seq(list(sh["thetas"]))
+        et.set_encoding_qubits(q[sh["enc"]])
+    if sh["method"] != "auxiliary":
+        sh["anc"] = None
+
+    def inp_of(k):
+        return {"kind": "evt-history", "W2": W2, "L": L, "init": init, "ops": [list(o) for o in ops[:k + 1]]}
+
+    def snap():
+        return {"thetas": list(sh["thetas"]), "enc": sh["enc"], "anc": sh["anc"], "method": sh["method"],
+                "U": fresh_encoding(f_sys, sh["H"], sh["enc_method"])}
+
+    def dev_of(h):
+        s = h.snap
+        U = s["U"]
+        P = [np.kron(shift_ref(1, th), np.identity(2 ** L)) for th in s["thetas"]]
+        ref = alt_product(P, U, np.linalg.inv(U), len(s["thetas"]))
+        if h.what == "matrix":
+            A = np.asarray(h.obj)
+            return float(np.abs(A - ref).max()) if A.shape == ref.shape else float("inf")
+        return circuit_dev(h.obj, [f2, f_sys], nw, [s["enc"]] + sys_wires, ref, s["anc"] if s["method"] == "auxiliary" else None)
+
+    held, last_setter, nchk = [], "enc" if init.get("bind") == "after" else None, 0
+    for k, op in enumerate(ops):
+        if op[0] == "thetas":
+            et.set_theta_seq(list(op[1]))
+            sh["thetas"] = list(op[1])
+        elif op[0] == "enc":
+            et.set_encoding_qubits(q[op[1]])
+            sh["enc"] = op[1]
+        elif op[0] == "anc":
+            et.set_auxiliary_qubits(q[op[1]])
+            if sh["method"] == "auxiliary":
+                sh["anc"] = op[1]
+        elif op[0] == "method":
+            et.set_method(op[1])
+            sh["method"] = op[1]
+            if op[1] != "auxiliary":
+                sh["anc"] = None
+        elif op[0] == "H":
+            sh["H"] = from_cplx_list(op[1])
+            et.block_encoding.h = DenseOp(f_sys, np.array(sh["H"], copy=True))
+        elif op[0] == "H_inplace":
+            sh["H"] = from_cplx_list(op[1])
+            et.block_encoding.h.mat[...] = sh["H"]
+            # a gate holds its operator by reference: circuits handed out earlier follow the operator (matrices do not)
+            for h in held:
+                if h.what == "circuit" and h.snap["href"] is et.block_encoding.h:
+                    h.snap["U"] = fresh_encoding(f_sys, sh["H"], h.snap["enc_method"])
+        elif op[0] == "block":
+            sh["enc_method"] = op[1]
+            nb = qib.operator.BlockEncodingGate(DenseOp(f_sys, np.array(sh["H"], copy=True)),
+                                                getattr(qib.operator.BlockEncodingMethod, op[1]))
+            nb.set_auxiliary_qubits(q[sh["enc"]])
+            et.block_encoding = nb
+        elif op[0] == "proc_theta":
+            et.processing.set_theta(op[1])
+        elif op[0] in ("circuit", "matrix"):
+            obj = et.as_circuit() if op[0] == "circuit" else et.as_matrix()
+            s = snap()
+            s["href"], s["enc_method"] = et.block_encoding.h, sh["enc_method"]
+            held.append(Held(op[0], obj, s, k))
+        else:
+            raise ValueError(op)
+        nchk += len(held)
+        if history_verdict(ctx, "history:evt", held, k, op, last_setter, dev_of, inp_of):
+            break
+        if op[0] not in ("circuit", "matrix"):
+            last_setter = op[0]
+    return nchk
+
+
+def gen_phase_history(rng, dyadic, thorough):
+    W = rng.choice([3, 4, 5] if thorough else [3, 4])
+    method = rng.choice(["auxiliary", "c-phase"])
+    n = rng.randint(1, W - 1)
+    wires = list(range(W))
+    rng.shuffle(wires)
+    enc, aux = wires[:n], (wires[n] if method == "auxiliary" else None)
+    init = {"theta": dyadic(), "enc": enc, "aux": aux, "method": method}
+    ops = [[rng.choice(["circuit", "circuit", "matrix"])]]
+    cur = dict(init)
+    for _ in range(rng.randint(3, 7)):
+        r = rng.random()
+        if r < 0.45:
+            ops.append(["theta", dyadic()])
+        elif r < 0.65:
+            ws = list(range(W))
+            rng.shuffle(ws)
+            cur["enc"] = ws[:n]
+            ops.append(["enc", ws[:n]])
+            if cur["method"] == "auxiliary":
+                cur["aux"] = ws[n]
+                ops.append(["aux", ws[n]])
+        elif r < 0.8 and cur["method"] == "auxiliary":
+            free = [w for w in range(W) if w not in cur["enc"]]
+            cur["aux"] = rng.choice(free)
+            ops.append(["aux", cur["aux"]])
+        else:
+            cur["method"] = "c-phase" if cur["method"] == "auxiliary" else "auxiliary"
+            ops.append(["method", cur["method"]])
+            if cur["method"] == "auxiliary":
+                cur["aux"] = rng.choice([w for w in range(W) if w not in cur["enc"]])
+                ops.append(["aux", cur["aux"]])
+        ops.append([rng.choice(["circuit", "circuit", "matrix"])])
+    return W, init, ops
+
+
+def gen_evt_history(rng, distinct_angles, thorough):
+    L = rng.choice([1, 2]) if thorough else 1
+    W2 = 3
+    wires = list(range(W2))
+    rng.shuffle(wires)
+    method = rng.choice(["auxiliary", "c-phase"])
+    init = {"H": cplx_list(rand_herm(rng, L)), "enc_method": rng.choice(["Wx", "Wxi", "R"]), "proc_method": method,
+            "thetas": distinct_angles(rng.randint(2, 5)), "enc": wires[0], "anc": wires[1],
+            "bind": rng.choice(["before", "before", "after"])}
+    cur = {"enc": wires[0], "anc": wires[1], "method": method}
+    ops = [[rng.choice(["circuit", "matrix"])]]
+    for _ in range(rng.randint(2, 5)):
+        r = rng.random()
+        if r < 0.25:
+            ops.append(["thetas", distinct_angles(rng.randint(1, 6))])
+        elif r < 0.5:
+            free = [w for w in range(W2) if w not in (cur["enc"], cur["anc"] if cur["method"] == "auxiliary" else None)]
+            cur["enc"] = rng.choice(free)
+            ops.append(["enc", cur["enc"]])
+        elif r < 0.6 and cur["method"] == "auxiliary":
+            cur["anc"] = rng.choice([w for w in range(W2) if w not in (cur["enc"], cur["anc"])])
+            ops.append(["anc", cur["anc"]])
+        elif r < 0.7:
+            cur["method"] = "c-phase" if cur["method"] == "auxiliary" else "auxiliary"
+            ops.append(["method", cur["method"]])
+            if cur["method"] == "auxiliary":
+                cur["anc"] = rng.choice([w for w in range(W2) if w != cur["enc"]])
+                ops.append(["anc", cur["anc"]])
+        elif r < 0.8:
+            ops.append(["H", cplx_list(rand_herm(rng, L))])
+        elif r < 0.88:
+            ops.append(["H_inplace", cplx_list(rand_herm(rng, L))])
+        elif r < 0.95:
+            ops.append(["block", rng.choice(["Wx", "Wxi", "R"])])
+        else:
+            ops.append(["proc_theta", rng.uniform(-3, 3)])
+        ops.append(["circuit"])
+        if rng.random() < 0.6:
+            ops.append(["matrix"])
+    return W2, L, init, ops
+
+
 # ------------------------------------------------------------------------------ run
 def model_words(ctx, maxlen):
     """ask Coq for the factor words of the model of as_matrix (from the regenerated definitions)"""
@@ -537,6 +844,66 @@ def run(ctx):
                    "%d of %d as_matrix results differ from the product along the model's word; first: %r"
                    % (len(word_bad), nword, word_bad[:1]))
 
+    # ---------------------------------------------------------------- histories on one object
+    ctx.rules.append("histories: one ProjectorControlledPhaseShift / EigenvalueTransformation object, getters interleaved with every "
+                     "setter (set_theta, set_encoding_qubits, set_auxiliary_qubits, set_method, set_theta_seq, operator replaced / "
+                     "changed in place, block encoding gate replaced, processing.set_theta), qubits re-bound inside a larger register; "
+                     "after every call every object handed out so far is compared with the numpy reference for the parameters it was "
+                     "obtained with; systematic (each setter between two getters, every method combination) + random histories")
+    hists = []
+    for method in ("auxiliary", "c-phase"):
+        for n in (1, 2):
+            W = n + 2
+            enc0, enc1 = list(range(1, n + 1)), list(range(n + 1, 1, -1))
+            a0 = 0 if method == "auxiliary" else None
+            other = "c-phase" if method == "auxiliary" else "auxiliary"
+            t0, t1, t2 = dyadic(), dyadic(), dyadic()
+            gets = [["circuit"], ["matrix"]]
+            for setter in ([["theta", t1]], [["enc", enc1]] + ([["aux", 1]] if a0 is not None else []),
+                           [["aux", W - 1]] if a0 is not None else None,
+                           [["method", other]] + ([["aux", 0]] if other == "auxiliary" else [])):
+                if setter is not None:
+                    hists.append(("phase", W, {"theta": t0, "enc": enc0, "aux": a0, "method": method},
+                                  gets + setter + gets + [["theta", t2], ["circuit"]]))
+    for _ in range(60 if ctx.thorough else 16):
+        hists.append(("phase",) + gen_phase_history(rng, dyadic, ctx.thorough))
+    for enc_method in ("Wx", "Wxi", "R"):
+        for proc_method in ("auxiliary", "c-phase"):
+            other = "c-phase" if proc_method == "auxiliary" else "auxiliary"
+            H1, H2 = cplx_list(rand_herm(rng, 1)), cplx_list(rand_herm(rng, 1))
+            setters = [[["thetas", distinct_angles(rng.randint(2, 4))]], [["enc", 2]],
+                       [["anc", 2]] if proc_method == "auxiliary" else None,
+                       [["method", other]] + ([["anc", 0]] if other == "auxiliary" else []),
+                       [["H", H1]], [["H_inplace", H2]], [["block", {"Wx": "R", "Wxi": "Wx", "R": "Wxi"}[enc_method]]],
+                       [["proc_theta", 0.8125]]]
+            for setter in setters:
+                if setter is not None:
+                    init = {"H": cplx_list(rand_herm(rng, 1)), "enc_method": enc_method, "proc_method": proc_method,
+                            "thetas": distinct_angles(rng.randint(2, 4)), "enc": 1, "anc": 0, "bind": "before"}
+                    hists.append(("evt", 3, 1, init, [["circuit"], ["matrix"]] + setter + [["circuit"], ["matrix"]]))
+    for _ in range(60 if ctx.thorough else 14):
+        hists.append(("evt",) + gen_evt_history(rng, distinct_angles, ctx.thorough))
+    for hst in hists:
+        kind = hst[0]
+        ctx.count("history_%s" % kind)
+        setters = sorted({o[0] for o in hst[-1] if o[0] not in ("circuit", "matrix")})
+        for s in setters:
+            ctx.count("history_%s_with_%s" % (kind, SETTER_NAME[s].replace(" ", "_")))
+        try:
+            nchk = oracle_phase_history(ctx, *hst[1:]) if kind == "phase" else oracle_evt_history(ctx, *hst[1:])
+        except Exception as e:
+            inp = ({"kind": "phase-history", "W": hst[1], "init": hst[2], "ops": hst[3]} if kind == "phase" else
+                   {"kind": "evt-history", "W2": hst[1], "L": hst[2], "init": hst[3], "ops": hst[4]})
+            ctx.fail("history:%s:exception:%s" % (kind, type(e).__name__), inp, "every call of the history succeeds", repr(e))
+            continue
+        ctx.count("history_object_comparisons", nchk)
+        oracle_only({"kind": kind + "-history", "init": {k: v for k, v in hst[-2].items() if k != "H"}, "nops": len(hst[-1]),
+                     "setters": setters}, True)
+        if len(hst[-1]) >= 6 and ("history", kind) not in sampled:
+            sampled.add(("history", kind))
+            ctx.sample({"kind": kind + "-history", "init": {k: v for k, v in hst[-2].items() if k != "H"}, "ops":
+                        [o if o[0] not in ("H", "H_inplace") else [o[0], "<matrix>"] for o in hst[-1]]}, cap=8)
+
     if ok_tr:
         dis = ctx.cases("qubitization", HEADER, cases, fn="bad_cases gen_cphase gen_aux gen_evt_circ gen_pmat")
         for i, d in dis[:5]:
@@ -550,6 +917,10 @@ def replay(ctx, data):
     before = len(ctx.failing)
     if inp.get("kind") == "phase":
         oracle_phase(ctx, inp["n"], inp["method"], inp["theta"])
+    elif inp.get("kind") == "phase-history":
+        oracle_phase_history(ctx, inp["W"], inp["init"], inp["ops"])
+    elif inp.get("kind") == "evt-history":
+        oracle_evt_history(ctx, inp["W2"], inp["L"], inp["init"], inp["ops"])
     elif inp.get("kind") == "evt":
         if "V" in inp:
             oracle_evt(ctx, inp["L"], None, "general", inp["proc_method"], inp["thetas"], nenc=inp["nenc"], V=from_cplx_list(inp["V"]))
